@@ -2,7 +2,7 @@ import GB.C06.Model
 /-
   C14 — models of `parseRPCName`, `ServiceRouter.RouteGRPC`, `ServiceRouter.RouteHTTP`
   (routing/service_router.go, after fix D16), `bridgedesc.CanonicalRPCName/DummyMethod/DefaultBinding`,
-  the gRPC-Web adapter's `Method()` (webbridge/grpcweb.go: after fix D38 the path as written, before it `r.URL.Path`) and of the part of
+  the gRPC-Web adapter's `Method()` (webbridge/grpcweb.go: after fix D39 the path as written, before it `r.URL.Path`) and of the part of
   `net/url` that decides what `URL.Path` / `URL.RawPath` hold for a request target
   (`setPath`, `unescape`/`escape` in `encodePath` mode, `EscapedPath` for an empty `RawPath`).
   The service table itself (claims, releases) is C06's `SvcState`.
@@ -126,10 +126,10 @@ def httpName (u : URL) : Bytes :=
 /-- the name before fix D16 -/
 def httpNamePreFix (u : URL) : Bytes := u.rawPath
 
-/-- the name the gRPC-Web adapter reported before fix D38: `gRPCWebServerStream.Method() = r.URL.Path` (percent-DECODED) -/
+/-- the name the gRPC-Web adapter reported before fix D39: `gRPCWebServerStream.Method() = r.URL.Path` (percent-DECODED) -/
 def webNamePreFix (u : URL) : Bytes := u.path
 
-/-- the name the gRPC-Web adapter reports (fix D38): `gRPCWebServerStream.Method()` = `URL.RawPath`, else `URL.EscapedPath()`
+/-- the name the gRPC-Web adapter reports (fix D39): `gRPCWebServerStream.Method()` = `URL.RawPath`, else `URL.EscapedPath()`
     — the same expression as in `ServiceRouter.RouteHTTP`, i.e. the path as written on the request line -/
 def webName (u : URL) : Bytes :=
   match u.rawPath with
